@@ -25,6 +25,7 @@ type evalCtx struct {
 	pkg   *types.Package
 	preds map[string]*Pred
 	depth int
+	loopVar func(n int, name string) (Val, bool)
 }
 
 func (e *evalCtx) withBound(name string, v Val) *evalCtx {
@@ -371,6 +372,19 @@ func (e *evalCtx) call(t *ast.CallExpr) Val {
 			r = sx(fn, r, e.intOf(a))
 		}
 		return mathInt(r)
+	case "loopvar":
+		// loopvar(N, name): the loop-carried variable `name` of loop N
+		lit, ok := t.Args[0].(*ast.BasicLit)
+		id2, ok2 := t.Args[1].(*ast.Ident)
+		if !ok || !ok2 || e.loopVar == nil {
+			e.fail("loopvar(N, name) needs a loop ordinal and a name, inside the function under verification")
+		}
+		n, _ := strconv.Atoi(lit.Value)
+		v, found := e.loopVar(n, id2.Name)
+		if !found {
+			e.fail("loopvar(%d, %s): not found", n, id2.Name)
+		}
+		return v
 	case "sameobj":
 		a, b := e.eval(t.Args[0]), e.eval(t.Args[1])
 		return boolVal(eq(a.Ref, b.Ref))
@@ -575,10 +589,14 @@ func (e *evalCtx) index(t *ast.IndexExpr) Val {
 	case kMap:
 		k := e.eval(t.Index)
 		dk, vk, mt := c.mapKeys(x.T)
-		_ = dk
+		if mt.Key().Underlying() == types.Typ[types.String].Underlying() {
+			c.eng.usesStrID = true
+		}
 		ki := c.mapKeyIndex(mt, k)
 		vs := sortOf(mt.Elem())
-		return fromTerm(mt.Elem(), sx("select", sx("select", c.heapGet(e.st, vk, vs), x.S), ki))
+		dom := and(not(eq(x.S, "0")), sx("select", sx("select", c.heapGet(e.st, dk, "Bool"), x.S), ki))
+		z := c.zero(mt.Elem())
+		return fromTerm(mt.Elem(), ite(dom, sx("select", sx("select", c.heapGet(e.st, vk, vs), x.S), ki), toTerm(z)))
 	}
 	e.fail("index of kind %d in %s", x.K, exprString(t))
 	return Val{}
